@@ -56,9 +56,17 @@ func VerifC20Monitor() {
 	em := &recEmitter{}
 	script := &vstub.ScriptedPubSub{}
 	var want [][]byte
+	// the channel's remote end is another peer or - a caller may Connect / Send to
+	// its own id - the local peer itself: then everything on the topic is the local
+	// peer's own traffic echoed back, and none of it may be delivered
+	target := other
+	if vstub.NdChoice("channel-with-self", 2) == 1 {
+		target = self
+		vstub.Cover("channel-with-self")
+	}
 	for k := 0; k < n; k++ {
 		from := other
-		if vstub.NdChoice("fromSelf", 2) == 1 {
+		if target == self || vstub.NdChoice("fromSelf", 2) == 1 {
 			from = self
 		}
 		body := vstub.NdBytes("body", 1)
@@ -70,7 +78,7 @@ func VerifC20Monitor() {
 	c := &channels{selfID: self, emitter: em, logger: zap.NewNop(), subs: map[peer.ID]*channel{},
 		ipfs: &vstub.PubSubCoreAPI{PS: script}}
 	sub, _ := script.Subscribe(context.Background(), "x")
-	c.monitorTopic(context.Background(), sub, other)
+	c.monitorTopic(context.Background(), sub, target)
 	vstub.Cover("monitored")
 	vstub.Assert(len(em.got) == len(want), "C20 every remote payload delivered exactly once, own payloads never")
 	if len(em.got) == len(want) {
